@@ -82,6 +82,7 @@ func C02(r *core.Run) {
 	rule1510(r)
 	rule1014(r)
 	rule0214(r)
+	rule099(r)
 }
 
 // handler exceptions for R02.1, one reason each
@@ -470,20 +471,23 @@ func rule026(r *core.Run) {
 		n := 0
 		for _, f := range core.Closures(fn) {
 			// returns of BucketNotEmpty in f
-			var notEmptyRets []*ssa.Return
-			for ret, ev := range returnedErrors(f) {
-				s := r.P.SliceOf(ev, core.SliceOpts{Depth: 3})
+			var notEmptyExits [][]core.Guard
+			for _, x := range errorExits(f) {
+				if _, isPhi := x.val.(*ssa.Phi); isPhi {
+					continue
+				}
+				s := r.P.SliceOf(x.val, core.SliceOpts{Depth: 3})
 				if has(errCodes(s), "BucketNotEmpty") {
-					// only direct returns (not phi-merged with nil) count as the failing arm
-					notEmptyRets = append(notEmptyRets, ret)
+					// a direct return, or one arm of a merged exit: the failing arm
+					notEmptyExits = append(notEmptyExits, x.guards)
 				}
 			}
 			for _, c := range r.P.CallsIn(f, false, removers[impl]) {
 				n++
 				ok := false
 				cg := core.GuardsOf(c)
-				for _, ret := range notEmptyRets {
-					for _, rg := range core.GuardsOf(ret) {
+				for _, rgs := range notEmptyExits {
+					for _, rg := range rgs {
 						for _, g := range cg {
 							if g.If == rg.If && g.Branch != rg.Branch {
 								ok = true
@@ -1002,10 +1006,10 @@ func rule0213(r *core.Run) {
 // reachable from the entry without any of the calls in group having been
 // made; "" if there is none. A return that hands back the error of a group
 // member itself is success exactly when that member succeeded and is fine.
-func maySucceedWithout(r *core.Run, fn *ssa.Function, group []*ssa.Call) string {
+func maySucceedWithout(r *core.Run, fn *ssa.Function, group []ssa.Instruction) string {
 	inGroup := func(y ssa.Instruction) bool {
 		for _, c := range group {
-			if y == ssa.Instruction(c) {
+			if y == c {
 				return true
 			}
 		}
@@ -1026,7 +1030,11 @@ func maySucceedWithout(r *core.Run, fn *ssa.Function, group []*ssa.Call) string 
 					return ""
 				}
 			}
-			for _, c := range group {
+			for _, gi := range group {
+				c, isCall := gi.(*ssa.Call)
+				if !isCall {
+					continue
+				}
 				if e := core.ErrorResult(c); e != nil && (e == ev || carries(ev, e)) {
 					return ""
 				}
@@ -1064,7 +1072,7 @@ func maySucceedWithout(r *core.Run, fn *ssa.Function, group []*ssa.Call) string 
 
 // rule0214 — a bolt mutation is acknowledged only after it was made.
 func rule0214(r *core.Run) {
-	r.Rule("R02.14", "in the bolt backend the transaction body of CreateBucket, DeleteBucket, ForceDeleteBucket, PutObject and DeleteObject can end with a possibly-nil error only after the operation's own mutation was issued — tx.CreateBucket and the creation record, tx.DeleteBucket, Bucket.Put, Bucket.Delete (must-pass-through on every path to a return whose error is not known to be non-nil; a return of the mutation's own result counts): an operation that returns early with the nil it has just tested acknowledges a write it never made (the bolt backend has no tests of its own)")
+	r.Rule("R02.14", "(and for the memory and filesystem backends: CreateBucket / DeleteBucket / ForceDeleteBucket / PutObject / DeleteObject return a possibly-nil error only after their own mutation — the write into Backend.buckets, bucket.put / bucket.rm, MkdirAll, the removal of the bucket directory and of its metadata, saveMeta) in the bolt backend the transaction body of CreateBucket, DeleteBucket, ForceDeleteBucket, PutObject and DeleteObject can end with a possibly-nil error only after the operation's own mutation was issued — tx.CreateBucket and the creation record, tx.DeleteBucket, Bucket.Put, Bucket.Delete (must-pass-through on every path to a return whose error is not known to be non-nil; a return of the mutation's own result counts): an operation that returns early with the nil it has just tested acknowledges a write it never made (the bolt backend has no tests of its own)")
 	type op struct {
 		method string
 		groups [][]string
@@ -1084,9 +1092,9 @@ func rule0214(r *core.Run) {
 		for gi, names := range o.groups {
 			// the function (the method or one of its closures) that makes the mutation
 			var host *ssa.Function
-			var group []*ssa.Call
+			var group []ssa.Instruction
 			for _, f := range append([]*ssa.Function{m}, m.AnonFuncs...) {
-				var g []*ssa.Call
+				var g []ssa.Instruction
 				core.Instrs(f, func(in ssa.Instruction) {
 					if c, ok := in.(*ssa.Call); ok && has(names, r.P.CalleeName(c)) {
 						g = append(g, c)
@@ -1107,5 +1115,99 @@ func rule0214(r *core.Run) {
 				"the transaction body can end with a possibly-nil error at "+bad+" without "+names[0]+" having been issued: the operation is acknowledged although nothing was written")
 		}
 	}
-	_ = n
+	// the same question for the memory and filesystem backends, where the mutation is a call or a
+	// write into the bucket map; operations with a legitimate "nothing to do" success (deleting a key
+	// that names a directory) are not listed
+	type op2 struct {
+		fn    string
+		what  string
+		isMut func(in ssa.Instruction) bool
+	}
+	callTo := func(suffixes ...string) func(ssa.Instruction) bool {
+		return func(in ssa.Instruction) bool {
+			c, ok := in.(ssa.CallInstruction)
+			if !ok {
+				return false
+			}
+			cn := r.P.CalleeName(c)
+			for _, sfx := range suffixes {
+				if strings.HasSuffix(cn, sfx) {
+					return true
+				}
+			}
+			return false
+		}
+	}
+	bucketsWrite := func(in ssa.Instruction) bool {
+		switch x := in.(type) {
+		case *ssa.MapUpdate:
+			return strings.HasSuffix(containerField(r, x.Map), ".Backend.buckets")
+		case ssa.CallInstruction:
+			if b, ok := x.Common().Value.(*ssa.Builtin); ok && b.Name() == "delete" && len(x.Common().Args) > 0 {
+				return strings.HasSuffix(containerField(r, x.Common().Args[0]), ".Backend.buckets")
+			}
+		}
+		return false
+	}
+	for _, o := range []op2{
+		{"s3mem.(*Backend).CreateBucket", "the store into Backend.buckets", bucketsWrite},
+		{"s3mem.(*Backend).DeleteBucket", "the delete from Backend.buckets", bucketsWrite},
+		{"s3mem.(*Backend).ForceDeleteBucket", "the delete from Backend.buckets", bucketsWrite},
+		{"s3mem.(*Backend).PutObject", "bucket.put", callTo("s3mem.(*bucket).put")},
+		{"s3mem.(*Backend).DeleteObject", "bucket.rm", callTo("s3mem.(*bucket).rm")},
+		{"s3afero.(*MultiBucketBackend).CreateBucket", "Fs.MkdirAll / Mkdir", callTo("afero.Fs.MkdirAll", "afero.Fs.Mkdir")},
+		{"s3afero.(*MultiBucketBackend).DeleteBucket", "the removal of the bucket directory", callTo("afero.Fs.Remove", "afero.Fs.RemoveAll")},
+		{"s3afero.(*MultiBucketBackend).DeleteBucket", "metaStore.deleteBucket", callTo("s3afero.(*metaStore).deleteBucket")},
+		{"s3afero.(*MultiBucketBackend).ForceDeleteBucket", "the removal of the bucket directory", callTo("afero.Fs.Remove", "afero.Fs.RemoveAll")},
+		{"s3afero.(*MultiBucketBackend).ForceDeleteBucket", "metaStore.deleteBucket", callTo("s3afero.(*metaStore).deleteBucket")},
+		{"s3afero.(*MultiBucketBackend).PutObject", "metaStore.saveMeta", callTo("s3afero.(*metaStore).saveMeta")},
+		{"s3afero.(*SingleBucketBackend).PutObject", "metaStore.saveMeta", callTo("s3afero.(*metaStore).saveMeta")},
+		{"s3afero.(*SingleBucketBackend).ForceDeleteBucket", "Fs.RemoveAll of the root", callTo("afero.Fs.RemoveAll")},
+	} {
+		m := mustFunc(r, o.fn)
+		if m == nil {
+			continue
+		}
+		var group []ssa.Instruction
+		core.Instrs(m, func(in ssa.Instruction) {
+			if o.isMut(in) {
+				group = append(group, in)
+			}
+		})
+		k := key(fname(r, m), "acknowledged only after "+o.what)
+		if len(group) == 0 {
+			r.Violated("R02.14", k, r.P.Pos(m.Pos()), "the operation no longer issues "+o.what+": it acknowledges a mutation it does not make")
+			continue
+		}
+		n++
+		bad := maySucceedWithout(r, m, group)
+		r.Check(bad == "", "R02.14", k, r.P.Pos(m.Pos()), "every possibly-successful return passes the mutation",
+			"the operation can return a possibly-nil error at "+bad+" without "+o.what+" having been issued: it is acknowledged although nothing was changed")
+	}
+	r.Floor("R02.14", 15, "mutating operations")
+}
+
+// containerField names the struct field a map value is loaded from ("" if it is not a field load).
+func containerField(r *core.Run, v ssa.Value) string {
+	for i := 0; i < 4; i++ {
+		switch x := v.(type) {
+		case *ssa.UnOp:
+			if x.Op != token.MUL {
+				return ""
+			}
+			if fa, ok := x.X.(*ssa.FieldAddr); ok {
+				return r.P.FieldName(fa)
+			}
+			if lv := core.BlockLocalLoad(x); lv != ssa.Value(x) {
+				v = lv
+				continue
+			}
+			return ""
+		case *ssa.ChangeType:
+			v = x.X
+		default:
+			return ""
+		}
+	}
+	return ""
 }
